@@ -114,6 +114,14 @@ def run_case(case):
             if got != (w in lang):
                 failures.append(fail("contains_terminal_objects", "wrong:%s" % got, w))
                 break
+    with guard(failures, "contains_one_shot_iterable"):
+        # the word is documented as an iterable: a generator that can be consumed once, and a tuple
+        for w in words[:25]:
+            got = g.contains(x for x in w)
+            got2 = g.contains(tuple(w))
+            if got != (w in lang) or got2 != (w in lang):
+                failures.append(fail("contains_one_shot_iterable", "wrong:%s/%s" % (got, got2), w))
+                break
     with guard(failures, "generate_epsilon"):
         got = g.generate_epsilon()
         if got != (() in lang):
